@@ -212,14 +212,15 @@ def driver(prop, tier, seed, devs):
                 path = os.path.join(td, "s%d.sieve" % j)
                 with open(path, "wb") as fp:
                     fp.write(data)
+                if I._slow_events[0] >= 5:
+                    break
                 o1 = I.run_parse(pp, data)
-                try:
-                    r = pf.parse_file(path)
-                    o2 = ("ret", r, pf.error if r is False else None)
-                except BaseException as e:  # noqa
-                    o2 = ("raise", type(e).__name__, str(e)[:60])
+                g = I.guarded(pf.parse_file, path)
+                o2 = ("ret", g[1], pf.error if g[1] is False else None) if g[0] == "ret" else g
                 nfile += 1
                 want = ("ret", o1["verdict"], o1["error"] if o1["verdict"] is False else None) if o1["cls"] == "ret" else None
+                if o1["cls"] == "hang" and o2[0] == "hang":
+                    continue            # already reported by the parse() judgement of the same bytes
                 if o2[0] != "ret" or (want is not None and o2 != want):
                     out["viols"].append(("parse_file", {"text": data.decode("utf-8", "replace"), "expl": None, "ref": [],
                                                         "failed": {"C02": "parse_file gave %r, parse() on the same bytes %r" % (o2, want)},
@@ -260,5 +261,81 @@ def driver(prop, tier, seed, devs):
     return out
 
 
+LEX_ALPHA = [ord(c) for c in 'tex:;,"\\#/*.[]{ a0K_\n\r$'] + [0xc3, 0xa9, 0]
+IMPL_KIND = {"left_bracket": "lb", "right_bracket": "rb", "left_parenthesis": "lp", "right_parenthesis": "rp",
+             "left_cbracket": "lc", "right_cbracket": "rc", "semicolon": "semi", "comma": "comma", "multiline": "ml",
+             "string": "str", "identifier": "id", "tag": "tag", "number": "num"}
+
+
+def tlc_lex(prefix, maxlen):
+    from .tlc import run_tlc
+    defs = "MCAlpha == <<%s>>\nMCPrefix == <<%s>>\n" % (", ".join(map(str, LEX_ALPHA)), ", ".join(map(str, prefix)))
+    cfg = ("SPECIFICATION Spec\nCONSTANTS\n Alphabet <- MCAlpha\n Prefix <- MCPrefix\n MaxLen = %d\n"
+           "INVARIANT Emit\nINVARIANT LexProgress\nINVARIANT Tiling\nCHECK_DEADLOCK FALSE\n" % maxlen)
+    out = []
+    res = run_tlc("lex", "SieveLex", defs, cfg, on_value=out.append, workers=3)
+    return out, res
+
+
+def lex_driver(prop, tier, seed, devs):
+    """spec/SieveLex.tla: every octet string over a hostile alphabet up to MaxLen (plain, and behind the openers
+    `text:`, `"`, `/*`) lexed by the specification, by sievelib's Lexer and by the harness's own lexer."""
+    from concurrent.futures import ThreadPoolExecutor
+    from . import lexref, sieve_impl as I
+    out = {"name": "lexical_level", "states": 0, "transitions": 0, "parses": 0, "known": {}, "viols": [],
+           "machinery": [], "coverage": {}, "samples": []}
+    fams = [(b"", 3), (b"text:", 3), (b'"', 3), (b"/*", 3), (b"#", 2), (b":", 3)]
+    if tier == "thorough":
+        fams = [(b"", 4), (b"text:", 4), (b'"', 4), (b"/*", 4), (b"#", 3), (b":", 4), (b"text:\n", 3)]
+    with ThreadPoolExecutor(max_workers=7) as ex:
+        results = list(ex.map(lambda f: (f, tlc_lex(list(f[0]), f[1])), fams))
+    lx = I.sparser.Lexer(I.sparser.Parser.lrules)
+    n = 0
+    for (prefix, ml), (lines, res) in results:
+        if res["error"] or res["violated"]:
+            out["machinery"].append("TLC SieveLex %r: %s %s" % (prefix, res["error"], res["violated"]))
+        out["states"] += res["distinct"]
+        out["transitions"] += res["states"]
+        for octs, toks, err, dc in lines:
+            data = bytes(octs)
+            want = [(k, st - 1, ln) for k, st, ln in toks]
+            # the harness's own lexer must agree with the specification (else the trace-validation direction is unsound)
+            t2, sp2, note = lexref.lex(data)
+            mine = [(k, sp[0], sp[1]) for (k, v), sp in zip(t2, sp2) if k != "junk"]
+            e2 = [sp[0] + 1 for (k, v), sp in zip(t2, sp2) if k == "junk"]
+            if mine != want or (err != 0) != bool(e2) or (err and e2[0] != err):
+                out["machinery"].append("harness lexer disagrees with SieveLex on %r: %r vs %r" % (data, mine, want))
+                if len(out["machinery"]) > 3:
+                    return out
+            if dc or note or I._slow_events[0] >= 5:
+                continue
+            n += 1
+            got, gerr, exc = [], 0, None
+
+            def scan_all():
+                for ttype, tvalue in lx.scan(data):
+                    if ttype in ("hash_comment", "bracket_comment"):
+                        continue
+                    got.append((IMPL_KIND.get(ttype, ttype), lx.pos, len(tvalue)))
+            g = I.guarded(scan_all)
+            if g[0] == "raise" and g[1] == "ParseError":
+                gerr = lx.pos + 1
+            elif g[0] != "ret":
+                exc = g[1] if g[0] == "raise" else "no result (watchdog)"
+            rec = {"text": repr(data), "expl": None, "ref": [], "obs": {"tokens": got, "error_offset": gerr, "exc": exc}}
+            if exc:
+                out["viols"].append(("lexical", dict(rec, failed={"C02": "Lexer.scan raised %s on %r" % (exc, data)})))
+            elif got != want and prop in ("C01", "C02"):
+                out["viols"].append(("lexical", dict(rec, failed={prop: "token stream of %r is %r, RFC 5228 lexical rules give %r" % (data, got, want)})))
+            elif gerr != err and prop == "C18":
+                out["viols"].append(("lexical", dict(rec, failed={"C18": "lexical error of %r reported at offset %d, the octets that are no token start at %d" % (data, gerr, err)})))
+    out["viols"] = [v for v in out["viols"] if prop in v[1]["failed"]]
+    out["parses"] = n
+    out["coverage"] = {"inputs": n, "families": [[p.decode("latin-1"), m] for p, m in fams], "alphabet": bytes(LEX_ALPHA).decode("latin-1")}
+    return out
+
+
 def drivers(prop):
+    if prop in ("C01", "C02", "C18"):
+        return [driver, lex_driver]
     return [driver]
